@@ -103,16 +103,23 @@ def byte_cases(wd):
              b"{\"a\": \"\xed\xa0\x80\"}", b"\x00" * 50, b"\xef\xbb\xbfrule r { a exists }\n"]
     good_rules = "rule r { a exists }\n"
     good_data = '{"a": 1}'
+    # data that does not parse, with a multi-byte character around the place where the diagnostic cuts its excerpt
+    for pad in range(88, 96):
+        for ch in ("é", "日", "😀"):
+            blobs.append(('{"a": "' + "x" * pad + ch * 3).encode("utf-8"))
     for k, b in enumerate(blobs):
         base = "b%d" % k
         os.makedirs(os.path.join(wd.path, base), exist_ok=True)
-        bp = os.path.join(wd.path, base, "blob.bin")
-        open(bp, "wb").write(b)
+        def blob(name):
+            p = os.path.join(wd.path, base, name)
+            open(p, "wb").write(b)
+            return p
         rp = wd.write(base + "/r.guard", good_rules)
         dp = wd.write(base + "/d.json", good_data)
-        for cmd, args, acc in (("validate", ["validate", "-r", bp, "-d", dp], False), ("validate", ["validate", "-r", rp, "-d", bp], True),
-                               ("validate", ["validate", "-r", rp, "-d", dp, "-i", bp], True), ("test", ["test", "-r", rp, "-t", bp], True),
-                               ("parse-tree", ["parse-tree", "-r", bp], False), ("rulegen", ["rulegen", "-t", bp], True)):
+        for cmd, args, acc in (("validate", ["validate", "-r", blob("blob.guard"), "-d", dp], False), ("validate", ["validate", "-r", rp, "-d", blob("blob.json")], True),
+                               ("validate", ["validate", "-r", rp, "-d", blob("blob.yaml"), "--structured", "-o", "json", "-S", "none"], True),
+                               ("validate", ["validate", "-r", rp, "-d", dp, "-i", blob("blob_params.json")], True), ("test", ["test", "-r", rp, "-t", blob("blob_tests.yaml")], True),
+                               ("parse-tree", ["parse-tree", "-r", blob("blob2.guard")], False), ("rulegen", ["rulegen", "-t", blob("blob_template.json")], True)):
             rc, so, se = cli.run(args, timeout=30)
             # whether the parser would accept the bytes is not known here: only termination is judged
             out.append({"i": 900000 + len(out), "kind": "bytes", "src": "cli", "cmd": cmd, "accepted": True, "end": end_of(rc),
